@@ -20,6 +20,7 @@ fn lookup(engine: &str) -> Option<par::WorkerFn> {
         "wal" => Some(engines::wal::worker),
         "btree" => Some(engines::btree::worker),
         "tuple" => Some(engines::tuple::worker),
+        "values" => Some(engines::values::worker),
         _ => None,
     }
 }
@@ -33,6 +34,7 @@ fn check(prop: &str, tier: &str) -> i32 {
         "C03" => props_seq::c03(tier),
         "C20" => props_flat::c20(tier),
         "C18" => props_flat::c18(tier),
+        "C19" => props_flat::c19(tier),
         "C17" => props_comp::c17(tier),
         "C10" => props_comp::c10(tier),
         "C11" => props_comp::c11(tier),
